@@ -102,6 +102,7 @@ type Frame struct {
 	pending  []pendingEdge
 	iters    map[ssa.Value]*rangeState
 	backEdges map[int]int
+	guardOf  map[ssa.Value]*guardInfo // values loaded from a lock-guarded field (lock discipline, C25)
 }
 
 type nameBinding struct {
